@@ -185,10 +185,10 @@ Definition hstep (h : hst) (e : list N) : option (hst * list N) :=
      8  a waiter returned the validator's error although the validator fails on no value held during the call
      9  a waiter returned context.DeadlineExceeded although its context did not end like a deadline (it has not ended, or
         it is not a deadline context)
-     10 a waiter returned the cancellation cause of a with-cause context although its context was not cancelled with
-        that cause
+     10 a waiter returned the cancellation cause of its context (context.Cause(ctx)), which is not the context's error
    (6, 9, 10: "return the context's error only if that source fired" - the error a waiter returns is the error of a
-   source that fired: of the context, ctx.Err(), which depends on how the context ended.)
+   source that fired; the context's error is ctx.Err(), which depends on how the context ended: Canceled for a plain
+   or with-cause context, DeadlineExceeded for a deadline; never the cause.)
    WatchChanges: every round is a WaitValueChange(current) call, judged by the same clauses: 3 / 4 when the callback is
    observed to be entered with v (v held by the cell since the round began, i.e. since the previous callback returned or
    the call was made; v differs from current under the container's equality), 5 with the condition "differs from
@@ -285,7 +285,7 @@ Definition chk_actor (eqv : N -> N -> bool) (cur : N) (quiet : bool) (p : mactor
     (if (t =? 10)%N then (if memN v (mheld a) then [] else [(15, 3)]) ++ (if is_ok (cond eqv w v) then [] else [(15, 4)]) else []) ++
     (if (t =? 4)%N && negb (mcanc a && negb (is_deadline (mfl a)) || mclosed a) then [(15, 6)] else []) ++
     (if (t =? 13)%N && negb (mcanc a && is_deadline (mfl a)) then [(15, 9)] else []) ++
-    (if (t =? 14)%N && negb (mcanc a && is_cause (mfl a)) then [(15, 10)] else []) ++
+    (if (t =? 14)%N then [(15, 10)] else []) ++
     (if (t =? 5)%N && negb (msent a) then [(15, 7)] else []) ++
     (if (t =? 6)%N && negb (existsb (fun h => is_err (cond eqv w h)) (mheld a)) then [(15, 8)] else []) ++
     (if quiet && (t =? 2)%N && is_ok (cond eqv w cur) then [(15, 5)] else [])
